@@ -669,3 +669,53 @@ Lemma closure_refuted_isolated_zero :
   fst (fst (crps_exact_line_closure ts f o w)) =x= XFin (3 # 4) /\
   fst (fst (crps_exact_line ts f o w)) =x= XFin (1 # 2).
 Proof. vm_compute. split; reflexivity. Qed.
+
+(* inserting thresholds that are already present changes nothing: the grid does not depend on how often an
+   observation occurs *)
+Lemma increasing_tail h t : increasing (h :: t) = true -> increasing t = true.
+Proof. destruct t; [reflexivity|]. intro H. apply increasing_cons in H. tauto. Qed.
+Lemma increasing_lt_all : forall t h x, increasing (h :: t) = true -> qmem x t = true -> h < x.
+Proof.
+  induction t as [|a t IH]; intros h x Hi Hm. discriminate.
+  apply increasing_cons in Hi. destruct Hi as [Hlt Hi]. rewrite qmem_cons in Hm. apply orb_prop in Hm. destruct Hm as [Hm|Hm].
+  - apply Qeq_bool_iff in Hm. lra.
+  - specialize (IH a x Hi Hm). lra.
+Qed.
+Lemma qinsert_mem_id x : forall T, increasing T = true -> qmem x T = true -> qinsert x T = T.
+Proof.
+  induction T as [|h t IH]; intros Hi Hm. discriminate.
+  cbn [qinsert]. pose proof (Qcompare_spec x h) as C. destruct (Qcompare x h); inversion C; subst; auto.
+  - exfalso. rewrite qmem_cons in Hm. apply orb_prop in Hm. destruct Hm as [Hm|Hm].
+    + apply Qeq_bool_iff in Hm. lra.
+    + pose proof (increasing_lt_all t h x Hi Hm). lra.
+  - f_equal. apply IH. apply (increasing_tail h t Hi).
+    rewrite qmem_cons in Hm. apply orb_prop in Hm. destruct Hm as [Hm|Hm]; auto. apply Qeq_bool_iff in Hm. lra.
+Qed.
+Lemma fold_qinsert_increasing S : forall l, increasing S = true -> increasing (fold_right qinsert S l) = true.
+Proof. induction l; intro H; simpl; auto. apply qinsert_increasing; auto. Qed.
+Lemma qmem_fold_qinsert S x : forall l, In x l -> qmem x (fold_right qinsert S l) = true.
+Proof.
+  induction l as [|h t IH]; intro H. destruct H.
+  simpl. destruct H as [H|H]. subst. apply qmem_qinsert_same. apply qmem_qinsert_other, IH, H.
+Qed.
+Lemma qmem_fold_qinsert_base S x : forall l, qmem x S = true -> qmem x (fold_right qinsert S l) = true.
+Proof. induction l; intro H; simpl; auto. apply qmem_qinsert_other; auto. Qed.
+Lemma fold_qinsert_absorb T : forall l, increasing T = true -> (forall x, In x l -> qmem x T = true) -> fold_right qinsert T l = T.
+Proof.
+  induction l as [|h t IH]; intros Hi Hm. reflexivity.
+  simpl. rewrite IH; auto. apply qinsert_mem_id; auto. apply Hm; left; auto. intros; apply Hm; right; auto.
+Qed.
+Lemma fin_of_app' a b : fin_of (a ++ b) = fin_of a ++ fin_of b.
+Proof. unfold fin_of. apply flat_map_app. Qed.
+
+Theorem union_grid_triple ft wt (cs : list fcase) add : union_grid ft wt (cs ++ cs ++ cs) add = union_grid ft wt cs add.
+Proof.
+  unfold union_grid, qsort_uniq. rewrite !map_app, !fin_of_app'.
+  set (W := match wt with Some l => l | None => [] end). set (fo := fin_of (map c_o cs)). set (A := fin_of add).
+  rewrite !fold_right_app. f_equal. f_equal.
+  set (S := fold_right qinsert [] A). set (S1 := fold_right qinsert S fo).
+  assert (HS : increasing S = true) by (apply fold_qinsert_increasing; reflexivity).
+  assert (H1 : increasing S1 = true) by (apply fold_qinsert_increasing; exact HS).
+  assert (M : forall x, In x fo -> qmem x S1 = true) by (intros; apply qmem_fold_qinsert; auto).
+  rewrite (fold_qinsert_absorb S1 fo H1 M). apply (fold_qinsert_absorb S1 fo H1 M).
+Qed.
